@@ -73,8 +73,15 @@ func (m ctModel) valueMask() (v, k uint32) {
 	return
 }
 
+var c18Held = newHeldRing(400)
+
 func ctObserve(s *of.CTStates) (hdr, val, mask uint32, err error) {
 	f := of.NewCTStateMatchField(s)
+	defer func() {
+		if err == nil {
+			c18Held.hold(f, fmt.Sprintf("NewCTStateMatchField (value %08x mask %08x)", val, mask))
+		}
+	}()
 	b, e := f.MarshalBinary()
 	if e != nil {
 		return 0, 0, 0, e
@@ -188,6 +195,9 @@ func TestC18(t *testing.T) {
 	// (c) longer random sequences, every step checked
 	checkRapid(t, c, func(rt *rapid.T) {
 		ops := rapid.SliceOfN(rapid.IntRange(0, 15), 5, 64).Draw(rt, "ops")
+		if !c18Held.check(c, rt, "C18") {
+			return
+		}
 		c.Eval()
 		c.NonTrivial(ev.HashStr("rseq", ctSeqString(ops)))
 		c.Label(fmt.Sprintf("random_len_%d0s", len(ops)/10))
